@@ -127,9 +127,9 @@ func DetectFromMagic(data []byte) Format {
 
 // detectHTMLMagic checks if the data looks like HTML content.
 func detectHTMLMagic(data []byte) bool {
-	// Trim leading whitespace
+	// Trim leading whitespace (HTML's ASCII whitespace: space, tab, LF, FF, CR)
 	start := 0
-	for start < len(data) && (data[start] == ' ' || data[start] == '\t' || data[start] == '\n' || data[start] == '\r') {
+	for start < len(data) && isHTMLSpace(data[start]) {
 		start++
 	}
 	if start >= len(data) {
@@ -139,7 +139,7 @@ func detectHTMLMagic(data []byte) bool {
 
 	// Check for common HTML signatures (case-insensitive for DOCTYPE)
 	upper := strings.ToUpper(string(data))
-	if strings.HasPrefix(upper, "<!DOCTYPE HTML") {
+	if isHTMLDoctype(upper) {
 		return true
 	}
 	if strings.HasPrefix(upper, "<HTML") {
@@ -151,6 +151,27 @@ func detectHTMLMagic(data []byte) bool {
 	}
 
 	return false
+}
+
+// isHTMLSpace reports whether c is one of HTML's ASCII whitespace characters.
+func isHTMLSpace(c byte) bool {
+	return c == ' ' || c == '\t' || c == '\n' || c == '\f' || c == '\r'
+}
+
+// isHTMLDoctype reports whether upper (already upper-cased) starts with an
+// HTML document type declaration: "<!DOCTYPE", one or more whitespace
+// characters, "HTML". The keyword and the name need not be separated by
+// exactly one space.
+func isHTMLDoctype(upper string) bool {
+	const kw = "<!DOCTYPE"
+	if !strings.HasPrefix(upper, kw) {
+		return false
+	}
+	i := len(kw)
+	for i < len(upper) && isHTMLSpace(upper[i]) {
+		i++
+	}
+	return i > len(kw) && strings.HasPrefix(upper[i:], "HTML")
 }
 
 func min(a, b int) int {
